@@ -86,6 +86,7 @@ func loadProgram(repo string, goarch string) (*Program, error) {
 	resolveRoles(p)
 	resolveByFingerprint(p)
 	resolveFieldsByFingerprint(p)
+	resolveThinWrappers(p)
 	return p, nil
 }
 
